@@ -349,7 +349,8 @@ Result apply_patch(File& out_file, RejectWriter& reject_writer, const std::vecto
         if (options.verbose || (!hunk_applied_perfectly && !skip_remaining_hunks))
             print_hunk_statistics(out, hunk_num, skip_remaining_hunks, location, hunk, offset_old_lines_to_new, offset_error);
 
-        if (location.is_found())
+        // Only hunks which were applied move the lines which follow them.
+        if (!skip_remaining_hunks && location.is_found())
             offset_old_lines_to_new += hunk.new_file_range.number_of_lines - hunk.old_file_range.number_of_lines;
     }
 
